@@ -56,3 +56,28 @@ Proof.
     simpl. lra.
   - apply (proj2 (C05_interpolator_outside_the_stored_times [0; 1; 4] [0; 1/2; 3/4] 9)); simpl; lra.
 Qed.
+
+(* the forecast built on the library's own lookup: bounded by M times the largest stored recovery at every real time, for every
+   positive tau - and exactly M times the last stored recovery once time/tau is past the last stored time (the plateau) *)
+From BBRun Require Import Gen_forecast.
+Definition library_curve (time recovery : list R) (q : R) : R := interp_fill NumR 0 (last recovery 0) time recovery q.
+
+Theorem C05_forecast_on_library_curve_is_bounded : forall time recovery hi t M tau,
+  incr time -> length recovery = length time -> (2 <= length time)%nat -> ys_in 0 hi recovery -> 0 <= M ->
+  0 <= forecast_cum_onephase (library_curve time recovery) t M tau <= M * hi.
+Proof.
+  intros time recovery hi t M tau Hinc Hlen Hn Hys HM. unfold forecast_cum_onephase; cbv zeta.
+  assert (B : 0 <= library_curve time recovery (t / tau) <= hi).
+  { apply (C05_interpolator_stays_in_range time recovery hi (t / tau)); auto; try apply C05_interpolator_is_model_lookup. }
+  split; [apply Rmult_le_pos; lra | apply Rmult_le_compat_l; lra].
+Qed.
+Print Assumptions C05_forecast_on_library_curve_is_bounded.
+
+Theorem C05_forecast_on_library_curve_plateaus : forall time recovery t M tau,
+  hd 0 time <= last time 0 -> last time 0 < t / tau ->
+  forecast_cum_onephase (library_curve time recovery) t M tau = M * last recovery 0.
+Proof.
+  intros time recovery t M tau H1 H2. unfold forecast_cum_onephase, library_curve; cbv zeta.
+  destruct (interp_fill_outside 0 (last recovery 0) time recovery (t / tau)) as [_ B]. rewrite (B H1 H2). reflexivity.
+Qed.
+Print Assumptions C05_forecast_on_library_curve_plateaus.
